@@ -245,4 +245,26 @@ theorem links_order_independent (dir : String) (nc : Bool) (rows rows' : List (N
     have h2 : ∀ r ∈ rows', name ≠ linkName dir r.1 nc := fun r hr he => h ⟨r, hp.mem_iff.mpr hr, he⟩
     rw [a3 name h1, b3 name h2]
 
+/-- whatever the rows (labels repeated or not) and wherever the run stops: a file of the directory afterwards either
+    was there before with the same content, or is the file of one of the rows and lists exactly that row's fragments -/
+theorem links_files_come_from_rows (dir : String) (nc : Bool) (rows : List (Nat × List String)) :
+    ∀ (s : LinkStore) (name : String) (fr : List String),
+    linkGet (links dir nc rows s).1 name = some fr →
+    linkGet s name = some fr ∨ ∃ r ∈ rows, name = linkName dir r.1 nc ∧ fr = r.2 := by
+  induction rows with
+  | nil => intro s name fr h; left; simpa [links] using h
+  | cons r rest ih =>
+    intro s name fr h
+    obtain ⟨l, f0⟩ := r
+    by_cases hex : (linkGet s (linkName dir l nc)).isSome
+    · left; simpa [links, hex] using h
+    · simp only [links, hex, Bool.false_eq_true, if_false] at h
+      rcases ih _ name fr h with h1 | ⟨r, hr, hn, hf⟩
+      · rw [linkGet_cons] at h1
+        by_cases he : linkName dir l nc = name
+        · right; refine ⟨(l, f0), by simp, he.symm, ?_⟩
+          simp [he] at h1; exact h1.symm
+        · left; simpa [he] using h1
+      · right; exact ⟨r, by simp [hr], hn, hf⟩
+
 end NgVerif.Mesh
